@@ -70,6 +70,9 @@ def setV (s : St) (i : Nat) (r : Option (TVec Int)) : St × String :=
     ({ s with vecs := s.vecs.setIfInBounds i t, cnt := (c, a, d, 0) }, showVec t.v)
   | none => (s, "mem")
 
+/-- a returned iterator as an offset from the current `begin()` -/
+def showRet (r : Option Nat) : String := match r with | some k => s!"ret={k} " | none => "ret=dangling "
+
 def vecStep (s : St) : List String → St × String
   | ["new", i] => match i.toNat? with
     | some i =>
@@ -88,7 +91,10 @@ def vecStep (s : St) : List String → St × String
     | some i => setV s i (getV s i).popBack
     | none => (s, "bad")
   | ["ins1", i, p, x] => match i.toNat?, p.toNat?, x.toInt? with
-    | some i, some p, some x => setV s i ((getV s i).insertN p 1 x)
+    | some i, some p, some x =>
+      match (getV s i).insertOneRet p x with
+      | none => (s, "mem")
+      | some (t, r) => let q := setV s i (some t); (q.1, showRet r ++ q.2)
     | _, _, _ => (s, "bad")
   | ["insn", i, p, n, x] => match i.toNat?, p.toNat?, n.toNat?, x.toInt? with
     | some i, some p, some n, some x => setV s i ((getV s i).insertN p n x)
@@ -99,8 +105,17 @@ def vecStep (s : St) : List String → St × String
       else setV s i ((getV s i).insertRange p (((getV s j).v.items.drop a).take (b - a)))
     | _, _, _, _, _ => (s, "bad")
   | ["erase", i, a, b] => match i.toNat?, a.toNat?, b.toNat? with
-    | some i, some a, some b => setV s i ((getV s i).erase a b)
+    | some i, some a, some b =>
+      match (getV s i).eraseRet a b with
+      | none => (s, "mem")
+      | some (t, r) => let q := setV s i (some t); (q.1, showRet r ++ q.2)
     | _, _, _ => (s, "bad")
+  | ["erase1", i, a] => match i.toNat?, a.toNat? with
+    | some i, some a =>
+      match (getV s i).eraseRet a (a + 1) with
+      | none => (s, "mem")
+      | some (t, r) => let q := setV s i (some t); (q.1, showRet r ++ q.2)
+    | _, _ => (s, "bad")
   | ["resize", i, n, x] => match i.toNat?, n.toNat?, x.toInt? with
     | some i, some n, some x => setV s i ((getV s i).resize n x)
     | _, _, _ => (s, "bad")
@@ -258,6 +273,15 @@ def setP (s : St) (i : Nat) (r : Option (PHeap Int × PL)) : St × String :=
 def setPN (s : St) (i : Nat) (r : Option (PHeap Int × PL × Nat)) : St × String :=
   setP s i (r.map fun q => (q.1, q.2.1))
 
+/-- like `setPN`, also reporting the returned iterator as its distance from `begin()` -/
+def setPNR (s : St) (i : Nat) (r : Option (PHeap Int × PL × Nat)) : St × String :=
+  match r with
+  | none => (s, "mem")
+  | some (h, l, m) =>
+    let q := setP s i (some (h, l))
+    let idx := (PL.nodesOf h l).findIdx (· == m)
+    (q.1, (if idx < (PL.nodesOf h l).length then s!"ret={idx} " else "ret=dangling ") ++ q.2)
+
 /-- iterator to position `idx` of list `l` (`idx = size` is `end()`, the null iterator without head) -/
 def posAt (h : PHeap Int) (l : PL) (idx : Nat) : Option Nat :=
   let ns := PL.nodesOf h l
@@ -277,7 +301,7 @@ def lstStep (s : St) (op : String) (a : List Int) : St × String :=
   | "insat", [i, idx, x] =>
     match posAt h (getP s (n i)) (n idx) with
     | none => (s, "mem")
-    | some p => setPN s (n i) (PL.constructNode h (getP s (n i)) x p)
+    | some p => setPNR s (n i) (PL.constructNode h (getP s (n i)) x p)
   | "eraseat", [i, idx] =>
     match posAt h (getP s (n i)) (n idx) with
     | none => (s, "mem")
@@ -297,7 +321,7 @@ def lstStep (s : St) (op : String) (a : List Int) : St × String :=
   | "insit", [i, slot, x] =>
     match s.slots.getD (n slot) none with
     | none => (s, "mem")
-    | some p => setPN s (n i) (PL.constructNode h (getP s (n i)) x p)
+    | some p => setPNR s (n i) (PL.constructNode h (getP s (n i)) x p)
   | "eraseit", [i, slot] =>
     match s.slots.getD (n slot) none with
     | none => (s, "mem")
@@ -384,10 +408,17 @@ def strStep (s : St) : List String → St × String
     | some [i, st], some c => setStr s i ((getStr s i).erase st c)
     | _, _ => (s, "bad")
   | ["eraseat", i, p] => match nats [i, p] with
-    | some [i, p] => setStr s i ((getStr s i).eraseAt p)
+    | some [i, p] => match (getStr s i).eraseAtRet p with
+      | none => (s, "mem")
+      | some (d, r) => let q := setStr s i (some d); (q.1, s!"ret={r} " ++ q.2)
+    | _ => (s, "bad")
+  | ["insat", i, p, c] => match nats [i, p, c] with
+    | some [i, p, c] => match (getStr s i).insertAt p c with
+      | none => (s, "mem")
+      | some (d, r) => let q := setStr s i (some d); (q.1, s!"ret={r} " ++ q.2)
     | _ => (s, "bad")
   | ["eraser", i, a, b] => match nats [i, a, b] with
-    | some [i, a, b] => setStr s i ((getStr s i).eraseRange a b)
+    | some [i, a, b] => let q := setStr s i ((getStr s i).eraseRange a b); (q.1, if q.2 = "mem" then q.2 else s!"ret={a} " ++ q.2)
     | _ => (s, "bad")
   | ["assignit", i, j, a, b] => match nats [i, j, a, b] with
     | some [i, j, a, b] =>
